@@ -1,88 +1,9 @@
-(* Single entry point of the extracted model: oracle : list Z -> list Z.
-   Request = SL [SI code; arg]; response = an sx value; SL [SI (-1)] on a malformed request. *)
+(* geometry requests (C18: 1800.., C13: 1300..). *)
 From Coq Require Import List ZArith QArith Bool.
 From PV Require Import lib.Sx lib.Str lib.Result.
-From PV Require Import model.Generated model.Detect model.Base spec.SpecDetect spec.SpecBase.
-From PV Require Import model.Geometry spec.SpecGeom.
+From PV Require Import model.Geometry spec.SpecGeom extract.OrCommon.
 Import ListNotations.
 Open Scope Z_scope.
-
-Definition bad : sx := SL [SI (-1)].
-
-Definition sx_q (x : sx) : option Q :=
-  match x with
-  | SL [SI n; SI d] => if 0 <? d then Some (n # Z.to_pos d) else None
-  | _ => None
-  end.
-Definition of_q (q : Q) : sx := let r := Qred q in SL [SI (Qnum r); SI (Zpos (Qden r))].
-
-Definition sx_cap (x : sx) : option caption :=
-  match x with
-  | SL [a; b; ns] =>
-      match sx_q a, sx_q b, sx_listof sx_int ns with
-      | Some s, Some e, Some l => Some (mkCap s e l)
-      | _, _, _ => None
-      end
-  | _ => None
-  end.
-Definition of_cap (c : caption) : sx := SL [of_q (c_start c); of_q (c_end c); of_list SI (c_nodes c)].
-Definition sx_langs := sx_listof (sx_listof sx_cap).
-Definition of_langs := of_list (of_list of_cap).
-
-Definition of_optz (o : option Z) : sx := of_opt SI o.
-
-(* ---- C20 ------------------------------------------------------------------ *)
-Definition req_c20_model (arg : sx) : sx :=
-  match arg with
-  | SS s => SL [of_list (fun r => of_result of_bool (detect_of r s)) documented_order;
-                of_result of_optz (detect_format s)]
-  | _ => bad
-  end.
-
-Definition req_c20_ok (arg : sx) : sx :=
-  match arg with
-  | SL [SI ne; ds; df] =>
-      match sx_bool (SI ne), sx_listof (sx_result sx_bool) ds, sx_result (sx_opt sx_int) df with
-      | Some ne, Some ds, Some df => of_bool (ok_detect ne ds df)
-      | _, _, _ => bad
-      end
-  | _ => bad
-  end.
-
-(* ---- C19 ------------------------------------------------------------------ *)
-Definition req_c19_adjust (arg : sx) : sx :=
-  match arg with
-  | SL [sk; off; ls] =>
-      match sx_q sk, sx_q off, sx_langs ls with
-      | Some sk, Some off, Some ls => of_langs (adjust sk off ls)
-      | _, _, _ => bad
-      end
-  | _ => bad
-  end.
-Definition req_c19_ok_adjust (arg : sx) : sx :=
-  match arg with
-  | SL [sk; off; ls; obs] =>
-      match sx_q sk, sx_q off, sx_langs ls, sx_langs obs with
-      | Some sk, Some off, Some ls, Some obs =>
-          SL [of_bool (ok_adjust sk off ls obs); of_bool (existsb (near_threshold sk off) ls)]
-      | _, _, _, _ => bad
-      end
-  | _ => bad
-  end.
-Definition req_c19_merge (arg : sx) : sx :=
-  match sx_langs arg with
-  | Some ls => of_result of_langs (merge_concurrent ls)
-  | None => bad
-  end.
-Definition req_c19_ok_merge (arg : sx) : sx :=
-  match arg with
-  | SL [ls; o1; o2] =>
-      match sx_langs ls, sx_result sx_langs o1, sx_result sx_langs o2 with
-      | Some ls, Some o1, Some o2 => of_bool (ok_merge ls o1 o2)
-      | _, _, _ => bad
-      end
-  | _ => bad
-  end.
 
 (* ---- geometry (C18, C13) ---------------------------------------------------- *)
 Definition unit_code (u : unit_) : Z := match u with PX => 0 | EM => 1 | PCT => 2 | CELL => 3 | PT => 4 end.
@@ -173,21 +94,10 @@ Definition req_geom (code : Z) (arg : sx) : sx :=
   | _, _ => bad
   end.
 
-Definition dispatch (code : Z) (arg : sx) : sx :=
-  match code with
-  | 1900 => req_c19_adjust arg
-  | 1901 => req_c19_ok_adjust arg
-  | 1902 => req_c19_merge arg
-  | 1903 => req_c19_ok_merge arg
-  | 1800 | 1801 | 1802 | 1803 | 1804 | 1805 | 1806 | 1807
-  | 1300 | 1301 | 1302 | 1303 | 1304 => req_geom code arg
-  | 2000 => req_c20_model arg
-  | 2001 => req_c20_ok arg
-  | _ => bad
-  end.
 
-Definition oracle (inp : list Z) : list Z :=
-  match decode inp with
-  | Some (SL [SI code; arg]) => enc (dispatch code arg)
-  | _ => enc bad
+Definition dispatch (code : Z) (arg : sx) : option sx :=
+  match code with
+  | 1800 | 1801 | 1802 | 1803 | 1804 | 1805 | 1806 | 1807
+  | 1300 | 1301 | 1302 | 1303 | 1304 => Some (req_geom code arg)
+  | _ => None
   end.
